@@ -331,10 +331,24 @@ func execEngine(args []string) string {
 		for i, t := range r {
 			hs[i] = hexOf(t)
 		}
-		if len(hs) == 0 {
-			return "tokens=-"
+		// "unknown leading tokens are skipped": a token that is not, letter for letter, one of the UCI command words is garbage;
+		// replacing every such token by another garbage word must not change where the command is found
+		uciWords := map[string]bool{"uci": true, "debug": true, "isready": true, "setoption": true, "register": true, "ucinewgame": true,
+			"position": true, "go": true, "stop": true, "ponderhit": true, "quit": true}
+		repl := make([]string, len(toks))
+		for i, t := range toks {
+			repl[i] = t
+			if !uciWords[t] {
+				repl[i] = "zzz"
+			}
 		}
-		return "tokens=" + strings.Join(hs, ",")
+		r2 := uci.VerifPrepareInput(strings.Join(repl, " "))
+		garbageOK := len(r) == len(r2)
+		out := "tokens=-"
+		if len(hs) > 0 {
+			out = "tokens=" + strings.Join(hs, ",")
+		}
+		return out + " p.garbage=" + b2s(garbageOK)
 	}
 	return "bad-op"
 }
@@ -663,6 +677,15 @@ func ttOps(o *Out, seed uint64, n int) {
 		for j := range hashes {
 			b := base + uint64(rng.Intn(2))
 			hashes[j] = b + nb*uint64(1+rng.Intn(1<<20))
+			if j > 0 && rng.Intn(3) == 0 {
+				// the same bucket, all but one bit of the key equal: a single bit above the bucket index flipped (any of them, the
+				// lowest ones included)
+				bit := uint(20 + rng.Intn(44))
+				if rng.Intn(3) == 0 {
+					bit = uint(20 + rng.Intn(3))
+				}
+				hashes[j] = hashes[rng.Intn(j)] ^ (1 << bit)
+			}
 		}
 		k := 4 + rng.Intn(28)
 		var ops []string
@@ -720,7 +743,14 @@ func orderOps(o *Out, seed uint64, n int, corpus string) {
 		}
 		for i := rng.Intn(12); i > 0; i-- {
 			m := ms[rng.Intn(len(ms))]
-			heur = append(heur, fmt.Sprintf("h:%d:%d:%d:%d", int(p.SideToMove), m.GetSourceSquare(), m.GetTargetSquare(), rng.Intn(99)))
+			hv := rng.Intn(99)
+			switch rng.Intn(6) {
+			case 0:
+				hv = 900 + rng.Intn(200) // around the PV / TT move scores
+			case 1:
+				hv = 1000 + rng.Intn(7000) // a history counter after a deep search exceeds every fixed move score
+			}
+			heur = append(heur, fmt.Sprintf("h:%d:%d:%d:%d", int(p.SideToMove), m.GetSourceSquare(), m.GetTargetSquare(), hv))
 			if rng.Bool() {
 				heur = append(heur, fmt.Sprintf("c:%d:%d:%d:%d", int(p.SideToMove), m.GetSourceSquare(), m.GetTargetSquare(), uint32(m)))
 			}
@@ -884,7 +914,8 @@ func goOps(o *Out, seed uint64, n int) {
 		o.Run(strings.TrimSpace("go " + strings.Join(hs, " ")))
 	}
 	// prefix garbage
-	cmds := []string{"uci", "debug", "isready", "setoption", "ucinewgame", "position", "go", "stop", "quit", "ponderhit", "foo", "Go", "isreadyy"}
+	cmds := []string{"uci", "debug", "isready", "setoption", "ucinewgame", "position", "go", "stop", "quit", "ponderhit", "foo", "Go", "isreadyy",
+		"Stop", "UCI", "POSITION", "IsReady", "gO", "stop.", "register"}
 	for i := 0; i < n/4; i++ {
 		var toks []string
 		for j := rng.Intn(4); j > 0; j-- {
